@@ -397,16 +397,26 @@ impl Scenario for C19S {
                                     failed = Some(format!("select reported message {} on channel {} but the model's next message is {}", gid, c, h.id));
                                     break;
                                 }
-                                match msg {
-                                    Msg::Tx(_, d, t) => {
+                                match (msg, h.k) {
+                                    (Msg::Plain(_), MK::Plain) => {},
+                                    (Msg::Region(id, g), MK::Region) => {
+                                        if &g[..] != &region_bytes(id)[..] {
+                                            failed = Some(format!("region of message {} has wrong contents", id));
+                                            break;
+                                        }
+                                    },
+                                    (Msg::Tx(_, d, t), MK::Tx(d2)) if d == d2 => {
                                         m.ch[d as usize].held_senders += 1;
                                         pg.senders.push((d, t));
                                     },
-                                    Msg::Rx(_, d, rx) => {
+                                    (Msg::Rx(_, d, rx), MK::Rx(d2)) if d == d2 => {
                                         m.ch[d as usize].loc = Loc::Held;
                                         pg.receivers.insert(d, rx);
                                     },
-                                    _ => {},
+                                    (_, k) => {
+                                        failed = Some(format!("message {} has the wrong kind (model: {:?})", h.id, k));
+                                        break;
+                                    },
                                 }
                             },
                             IpcSelectionResult::ChannelClosed(id) => {
@@ -429,6 +439,9 @@ impl Scenario for C19S {
                     if failed.is_some() {
                         break;
                     }
+                }
+                if failed.is_none() && pending(&m, &pg.set_ids) > 0 {
+                    failed = Some(format!("select returned {} times without reporting {} event(s) the model has pending", rounds, pending(&m, &pg.set_ids)));
                 }
                 if let Some(f) = failed {
                     diverge!("select", "{}", f);
@@ -495,16 +508,22 @@ impl Scenario for C19S {
                             if gid != h.id {
                                 diverge!("accept", "accept returned message {} but the client's first message is {}", gid, h.id);
                             }
-                            match first {
-                                Msg::Tx(_, d, t) => {
+                            match (first, h.k) {
+                                (Msg::Plain(_), MK::Plain) => {},
+                                (Msg::Region(id, g), MK::Region) => {
+                                    if &g[..] != &region_bytes(id)[..] {
+                                        diverge!("accept", "region of message {} has wrong contents", id);
+                                    }
+                                },
+                                (Msg::Tx(_, d, t), MK::Tx(d2)) if d == d2 => {
                                     m.ch[d as usize].held_senders += 1;
                                     pg.senders.push((d, t));
                                 },
-                                Msg::Rx(_, d, r2) => {
+                                (Msg::Rx(_, d, r2), MK::Rx(d2)) if d == d2 => {
                                     m.ch[d as usize].loc = Loc::Held;
                                     pg.receivers.insert(d, r2);
                                 },
-                                _ => {},
+                                (_, k) => diverge!("accept", "the first message {} has the wrong kind (model: {:?})", h.id, k),
                             }
                             m.ch[c as usize].loc = Loc::Held;
                             pg.receivers.insert(c, rx);
